@@ -28,8 +28,10 @@ namespace MayVerif.SyncFlag
 notation "Tid" => Nat
 notation "Bid" => Nat
 
-/-- `isize::MAX` on the 64-bit target the traces come from -/
-def MAXI : Int := 9223372036854775807
+/-- `isize::MAX` on the 64-bit target the traces come from. Irreducible: the proofs use it as an opaque constant
+    (only `n < MAXI` is ever assumed about it); unfolding the literal inside `Int` comparisons sends `whnf` into
+    deep recursion. Compiled code (the replay driver) is not affected. -/
+@[irreducible] def MAXI : Int := 9223372036854775807
 
 @[grind] def upd {α : Type} (f : Nat → α) (t : Nat) (v : α) : Nat → α := fun u => if u = t then v else f u
 
